@@ -1448,6 +1448,29 @@ def c19(ctx: Ctx) -> None:
                   'a string without the separator raises ValueError', 'a string without the separator is accepted or raises something else',
                   witness=render(gp, w), construct=construct_key(pair.qualname, 'missing separator'))
 
+    # a `split(sep, 1)` whose result is never taken apart into exactly two names (nor measured) does not notice a string
+    # without the separator: the one-element list travels on (spread into the tuple parser it raises TypeError, indexed
+    # it raises IndexError - neither is the ValueError the caller is promised)
+    for s_ in splits:
+        if s_.ast.func.attr != 'split':
+            continue
+        taken = any(un.meta.get('value') is s_.ast for un in unpacks)
+        if not taken:
+            # the result may travel through a local first: an unpack (or a len() test) of that local also counts
+            holder = next((n for n in gp.nodes if n.kind == 'store_name' and n.meta.get('value') is s_.ast), None)
+            hn = holder.meta['name'] if holder is not None else None
+            if hn is not None:
+                taken = any(n.kind == 'unpack' and n.meta.get('arity') == 2 and isinstance(n.meta.get('value'), ast.Name) and n.meta['value'].id == hn
+                            for n in gp.nodes) or any(
+                    n.kind in ('branch', 'assume') and any(isinstance(x, ast.Call) and isinstance(x.func, ast.Name) and x.func.id == 'len'
+                                                           and x.args and isinstance(x.args[0], ast.Name) and x.args[0].id == hn
+                                                           for x in ast.walk(n.meta['test'])) for n in gp.nodes)
+        if not taken:
+            ctx.violation('C19-R2', f'{norm(s_.ast)}: the parts are never taken apart into exactly two', gp.loc(s_),
+                          'a string without the separator is not noticed where it is cut: the one-element result travels on and fails later with '
+                          'a TypeError / IndexError (or not at all) instead of the ValueError that names the item',
+                          construct=construct_key(pair.qualname, 'split result not unpacked'))
+
     def _fold_cmp(t: ast.AST, var: str, val) -> Optional[bool]:
         """truth of a test over one variable for a concrete value (ints / strings), None if not foldable"""
         try:
